@@ -599,7 +599,9 @@ func clFullRangeSum(n *detNode, ctx sdk.Context, poolId uint64) (sum osmomath.De
 	}
 	sp := int64(pool.GetTickSpacing())
 	lo, hi := cltypes.MinInitializedTick/sp*sp, cltypes.MaxTick/sp*sp
-	ids, err := n.app.ConcentratedLiquidityKeeper.GetAllPositionIdsForPoolId(ctx, cltypes.PositionPrefix, poolId)
+	// every position id (pool filter 0 = none: the keeper's filter parses the DECIMAL pool id of the key as hexadecimal and
+	// drops the positions of every pool with id >= 10), filtered by the position record's own pool id
+	ids, err := n.app.ConcentratedLiquidityKeeper.GetAllPositionIdsForPoolId(ctx, cltypes.PositionPrefix, 0)
 	if err != nil {
 		return sum, false, err
 	}
@@ -607,6 +609,9 @@ func clFullRangeSum(n *detNode, ctx sdk.Context, poolId uint64) (sum osmomath.De
 		p, err := n.app.ConcentratedLiquidityKeeper.GetPosition(ctx, id)
 		if err != nil {
 			return sum, false, err
+		}
+		if p.PoolId != poolId {
+			continue
 		}
 		if (p.LowerTick == lo || p.LowerTick == cltypes.MinInitializedTick) && (p.UpperTick == hi || p.UpperTick == cltypes.MaxTick) {
 			sum = sum.Add(p.Liquidity)
